@@ -227,11 +227,12 @@ def SomeRopBad (u : UC) (classes : List ClassB) (stmts : List Stmt) : Prop :=
 theorem RopBad.unmap (u : UC) (g : ClassB → ClassB) (hk : ∀ c, (g c).kind = c.kind) (ha : ∀ c, (g c).attrs = c.attrs)
     {classes : List ClassB} {sk tk : Name} {skeys tkeys : List Name} (h : RopBad u (classes.map g) sk skeys tk tkeys) :
     RopBad u classes sk skeys tk tkeys := by
-  rcases h with h | h | h | h
+  rcases h with h | h | h | h | h
   · left; intro c hc; rw [← hk]; exact h (g c) (List.mem_map.mpr ⟨c, hc, rfl⟩)
   · right; left; intro c hc; rw [← hk]; exact h (g c) (List.mem_map.mpr ⟨c, hc, rfl⟩)
   · right; right; left; exact h
-  · right; right; right
+  · right; right; right; left; exact h
+  · right; right; right; right
     intro c hc hs
     have := h (g c) (List.mem_map.mpr ⟨c, hc, rfl⟩) (by rw [hk]; exact hs)
     rw [ha] at this; exact this
@@ -269,9 +270,13 @@ theorem popAssocs_error (u : UC) : ∀ (stmts : List Stmt) (s : BState) (e : Bui
           exact here (Or.inr (Or.inl (none_of tk h2))) h.symm
         | some c2 =>
           rw [h1, h2] at h; simp only at h
+          by_cases hdu : skeys.any isDunder = true
+          · simp only [hdu, if_true, Except.error.injEq] at h
+            exact here (Or.inr (Or.inr (Or.inl hdu))) h.symm
+          simp only [hdu, Bool.false_eq_true, if_false] at h
           by_cases hl : (skeys.length != tkeys.length) = true
           · simp only [hl, if_true, Except.error.injEq] at h
-            exact here (Or.inr (Or.inr (Or.inl (by simpa using hl)))) h.symm
+            exact here (Or.inr (Or.inr (Or.inr (Or.inl (by simpa using hl))))) h.symm
           · simp only [hl, Bool.false_eq_true, if_false] at h
             by_cases hk : tkeys.all (fun k => (c2.attrs.map (fun a => u.upper a.1)).contains (u.upper k)) = true
             · simp only [hk, if_true] at h
@@ -293,7 +298,7 @@ theorem popAssocs_error (u : UC) : ∀ (stmts : List Stmt) (s : BState) (e : Bui
               rw [hstep] at hb'
               exact RopBad.unmap u _ (fun c => by split <;> rfl) (fun c => by split <;> rfl) hb'
             · simp only [hk, Bool.false_eq_true, if_false, Except.error.injEq] at h
-              refine here (Or.inr (Or.inr (Or.inr ?_))) h.symm
+              refine here (Or.inr (Or.inr (Or.inr (Or.inr ?_)))) h.symm
               intro c hc hs
               have hm2 : c2 ∈ s.classes := List.mem_of_find?_eq_some h2
               have hk2 : sameKind u c2.kind tk = true := by
@@ -418,10 +423,10 @@ theorem buildCore_error_iff (u : UC) (stmts : List Stmt) (e : BuildErr) :
       unfold buildCore; simp only [h1, h2, h3]
       exact (popInstances_error_iff u stmts s3 e).mpr hf
 
-/-- THE CAUSES OF A FAILING BUILD, exactly (no `__x__` identifier in an attribute position) -/
-theorem build_error_iff (u : UC) (stmts : List Stmt) (e : BuildErr) (hp : touchesInternals stmts = false) :
+/-- THE CAUSES OF A FAILING BUILD, exactly -/
+theorem build_error_iff (u : UC) (stmts : List Stmt) (e : BuildErr) :
     build u stmts = .error e ↔ Failure u stmts e := by
-  rw [build_eq_core u stmts hp]; exact buildCore_error_iff u stmts e
+  rw [build_eq_core u stmts]; exact buildCore_error_iff u stmts e
 
 /-! ### no built-in exception -/
 
@@ -449,16 +454,15 @@ theorem failure_documented (u : UC) (stmts : List Stmt) (e : BuildErr) (hg : Val
     | unknownType _ _ _ _ _ _ => exact Or.inl rfl
     | badValue _ _ _ _ _ _ _ _ => exact Or.inr rfl
 
-/-- NO BUILT-IN EXCEPTION: a build of statements whose values have the lexical forms of the dialect and that use no
-    identifier of the form `__x__` as an attribute name returns a metamodel or raises the metamodel exception or the
-    parsing exception; the three places where Python could raise a built-in (`stmt.values[idx]`, `None.upper()`,
-    `len(value)`) and the unmodelled outcome are not reached -/
-theorem build_documented (u : UC) (stmts : List Stmt) (hp : touchesInternals stmts = false) (hg : ValuesGuessable u stmts) :
+/-- NO BUILT-IN EXCEPTION: a build of statements whose values have the lexical forms of the dialect returns a metamodel or
+    raises the metamodel exception or the parsing exception; the three places where Python could raise a built-in
+    (`stmt.values[idx]`, `None.upper()`, `len(value)`) are not reached -/
+theorem build_documented (u : UC) (stmts : List Stmt) (hg : ValuesGuessable u stmts) :
     (∃ s, build u stmts = .ok s) ∨ build u stmts = .error .metaErr ∨ build u stmts = .error .parseErr := by
   cases h : build u stmts with
   | ok s => exact Or.inl ⟨s, rfl⟩
   | error e =>
-    rcases failure_documented u stmts e hg ((build_error_iff u stmts e hp).mp h) with rfl | rfl
+    rcases failure_documented u stmts e hg ((build_error_iff u stmts e).mp h) with rfl | rfl
     · exact Or.inr (Or.inl rfl)
     · exact Or.inr (Or.inr rfl)
 
